@@ -369,7 +369,7 @@ theorem kindOutcome_simple_nil (d : ClassDiagram) (s t : End) :
   cases hs : findClass d s.cls <;> cases ht : findClass d t.cls <;>
     simp [kindOutcome, resolvedRel, pairResolved, groupOf, RelKind.asRel, hs, ht, refsResolved, keyNames]
 
-/-- THE FINDING, as a statement about the model: an UNFORMALISED simple relationship (R_SIMP, two R_PART rows, no R_FORM,
+/-- documented behaviour (outside the property's clauses): an UNFORMALISED simple relationship (R_SIMP, two R_PART rows, no R_FORM,
     no O_REF) is not formalised, and `mk_association` defines one association for it all the same — without keys, from
     the SECOND participant row to the FIRST -/
 theorem unformalised_simple_defines (d : ClassDiagram) (w : RelRows) (p q : End) (pc qc : Class)
